@@ -1,6 +1,8 @@
 package symex
 
 import (
+	"go/types"
+
 	"verif/engine/smt"
 
 	"golang.org/x/tools/go/ssa"
@@ -45,4 +47,42 @@ func replaceAllChar(a, from, to *smt.Term) *smt.Term {
 		return a
 	}
 	return smt.StrReplaceAll(a, from, to)
+}
+
+// Exact models of trivial accessors of foreign value types whose fields are unexported or whose
+// package is loaded from export data only (no body available):
+//
+//	glightning.AmountFromMSat(x) = Amount{msat: x};  Amount.MSat() = a.msat
+//	(*lnrpc.PayReq).GetDestination / GetCltvExpiry / GetNumSatoshis / GetPaymentHash and
+//	(*lnrpc.Channel).GetChanId / GetRemotePubkey: protobuf getters, "zero value on a nil
+//	receiver, the field otherwise" (protoc-gen-go contract).
+func init() {
+	const gl = "github.com/elementsproject/glightning/glightning"
+	intrinsics[gl+".AmountFromMSat"] = func(m *Machine, fn *ssa.Function, args []Value) Value {
+		return &StructV{F: []Value{args[0]}}
+	}
+	intrinsics["("+gl+".Amount).MSat"] = func(m *Machine, fn *ssa.Function, args []Value) Value {
+		return args[0].(*StructV).F[0]
+	}
+	const lnrpc = "github.com/lightningnetwork/lnd/lnrpc"
+	for _, g := range [][2]string{
+		{"PayReq", "Destination"}, {"PayReq", "CltvExpiry"}, {"PayReq", "NumSatoshis"}, {"PayReq", "PaymentHash"},
+		{"Channel", "ChanId"}, {"Channel", "RemotePubkey"},
+	} {
+		field := g[1]
+		intrinsics["(*"+lnrpc+"."+g[0]+").Get"+field] = func(m *Machine, fn *ssa.Function, args []Value) Value {
+			res := fn.Signature.Results().At(0).Type()
+			p, _ := args[0].(*Ptr)
+			if p == nil {
+				return Zero(res)
+			}
+			st := under(fn.Signature.Recv().Type().(*types.Pointer).Elem()).(*types.Struct)
+			for i := 0; i < st.NumFields(); i++ {
+				if st.Field(i).Name() == field {
+					return p.sub(i).load()
+				}
+			}
+			panic(unsupported("protobuf getter: no field " + field))
+		}
+	}
 }
